@@ -140,18 +140,19 @@ type SchedCfg struct {
 
 // Case is one exactly repeatable simulated run.
 type Case struct {
-	Prop     string           `json:"prop"`
-	Scenario string           `json:"scenario"`
-	Seed     uint64           `json:"seed"`
-	Knobs    Knobs            `json:"knobs"`
-	Sched    SchedCfg         `json:"sched"`
-	Clients  [][]Op           `json:"clients"`
-	Faults   []*simdisk.Fault `json:"faults,omitempty"`
-	Comp     *CompCase        `json:"comp,omitempty"` // component scenarios
-	MaxSteps int64            `json:"max_steps,omitempty"`
-	Life     string           `json:"life,omitempty"`
-	Damage   *Damage          `json:"damage,omitempty"`
-	Slow     []int            `json:"slow,omitempty"` // clients scheduled only rarely (slow nodes)
+	Prop            string           `json:"prop"`
+	Scenario        string           `json:"scenario"`
+	Seed            uint64           `json:"seed"`
+	Knobs           Knobs            `json:"knobs"`
+	Sched           SchedCfg         `json:"sched"`
+	Clients         [][]Op           `json:"clients"`
+	Faults          []*simdisk.Fault `json:"faults,omitempty"`
+	Comp            *CompCase        `json:"comp,omitempty"` // component scenarios
+	MaxSteps        int64            `json:"max_steps,omitempty"`
+	Life            string           `json:"life,omitempty"`
+	Damage          *Damage          `json:"damage,omitempty"`
+	TableFaultsOnly bool             `json:"table_faults_only,omitempty"`
+	Slow            []int            `json:"slow,omitempty"` // clients scheduled only rarely (slow nodes)
 }
 
 // Clone deep-copies a case through JSON.
